@@ -124,6 +124,9 @@ pub fn case(tape: &[u32]) -> CaseOutcome {
     if t.chance(1, 4) {
         let k = 1 + t.choose(2);
         source = pysrc::inject_faults(&mut t, &source, k);
+    } else if t.chance(1, 10) {
+        // syntax errors that show only as MISSING tokens
+        source = pysrc::MISSING_ONLY[t.choose(pysrc::MISSING_ONLY.len())].to_string();
     }
     // every declared global gets a string value most of the time
     let mut globals: Vec<(String, String)> = vec![];
